@@ -292,7 +292,7 @@ def law_add_sub(run, case):
                     else 'tzoffset')
     model_t = mk_ts(t)
     text = ('let(d => %s, t => %s) -> [($d + $t) - $t, ($d + $t) - $d, '
-            '$t + $d, $d - $t, $d + $t]' % (dx, tx))
+            '$t + $d, $d - $t, $d + $t, ($d - $t) + $t]' % (dx, tx))
     if case.get('tzkind') == 'dst':
         # a host zone with a varying offset: adding a timespan moves the
         # wall clock (python's arithmetic), so only the two laws of the
@@ -306,10 +306,11 @@ def law_add_sub(run, case):
         got = _get(run, case, 'add-sub', text, **binds)
         if got is None:
             return
-        back, span = got[0], got[1]
+        back, span, back2 = got[0], got[1], got[5]
         if not isinstance(back, dtm.datetime) or back.replace(
                 tzinfo=None) != host.replace(tzinfo=None) or \
-                back.utcoffset() != host.utcoffset() or span != model_t:
+                back.utcoffset() != host.utcoffset() or span != model_t or \
+                back2.replace(tzinfo=None) != host.replace(tzinfo=None):
             _fail(run, case, 'add-sub-wrong',
                   '%s with d=%r -> (d + t) - t = %r, (d + t) - d = %r; t = '
                   '%r' % (text, host, back, span, model_t))
@@ -317,7 +318,7 @@ def law_add_sub(run, case):
     got = _get(run, case, 'add-sub', text, **binds)
     if got is None:
         return
-    back, span, comm, minus, plus = got
+    back, span, comm, minus, plus = got[:5]
     ok = (isinstance(back, dtm.datetime) and to_us(back) == to_us(model_d)
           and off_min(back) == off_min(model_d) and span == model_t
           and to_us(plus) == to_us(model_d) + model_t // US
@@ -649,6 +650,18 @@ def cases(draw):
         c['spelling'] = 'host'
         c['tzkind'] = 'dst'
         c['t'] = [draw(st.integers(-400, 400))] + draw(span)[1:]
+        if draw(st.booleans()):
+            # d + t (or d - t) is a wall-clock time that the zone skips:
+            # the first hour of April does not exist there
+            days = draw(st.integers(-400, 400))
+            target = dtm.datetime(draw(st.integers(1900, 2100)), 4, 1, 0,
+                                  draw(st.integers(0, 59)),
+                                  draw(st.integers(0, 59)))
+            sign = draw(st.sampled_from([1, -1]))
+            d0 = target - sign * dtm.timedelta(days=days)
+            c['d'] = [d0.year, d0.month, d0.day, d0.hour, d0.minute,
+                      d0.second, 0, c['d'][7]]
+            c['t'] = [sign * days, 0, 0, 0, 0, 0]
     if law in ('compare', 'naive-twin'):
         same = draw(st.integers(0, 2)) == 0
         if same and law == 'compare':
